@@ -4,7 +4,7 @@
    the input), byte widths add up; green widths / red offsets (Syntax/Green.v) index the text.
    What is not: that the grammar code of parser.rs places every green it is handed into the tree
    (checked per input on the real tree by harness/h10's oracle). *)
-From Syntax Require Import Lexer LexerProofs Green GreenProofs.
+From Syntax Require Import Lexer LexerProofs Green GreenProofs TokenStream TokenStreamProofs.
 
 (* The concatenation, in order, of leading trivia ++ token text ++ trailing trivia of every
    terminal the lexer produces up to and including EndOfFile is the input, for every input. *)
@@ -37,6 +37,55 @@ Theorem C10_spans : forall g : green, built g ->
         /\ red_text n = slice_bytes file (red_offset n) (red_width n)
         /\ children_tile n) root.
 Proof. exact spans_built. Qed.
+
+(* The parser's token plumbing (TokenStream.v), for EVERY sequence of operations the grammar can ask
+   for - i.e. every grammar and every error-recovery decision - as long as the sequence respects
+   the side conditions [ops_ok] (take is not asked for EndOfFile; skip_until's predicate holds at
+   EndOfFile; unglue's two texts spell the token; a skipped taken node is made of the last greens
+   handed out with nothing skipped since): what was handed out ++ pending trivia ++ look-ahead ++
+   unread text is the source; offset + current_width is exactly the byte length of what was
+   handed out and is pending (so every span the trivia cache is keyed with indexes the right
+   text, and the cache can only return a trivia list with the text of that span); the
+   subtraction current_width - last_trivia_length cannot underflow; no unwrap / index of the
+   plumbing panics.  The side conditions are facts about parser.rs call sites: they are checked
+   per input through the hook's op log (Corr.v check_oplog), not proved. *)
+Theorem C10_plumbing_invariant : forall (src : str) (ops : list op), ops_ok src ops = true ->
+  let s := run_ops src ops in
+  etext (p_emitted s) ++ ptext (p_pending s) ++ ltext (p_look s) ++ rest (p_lex s) = src
+  /\ (p_offset s + p_cur_w s)%N = str_width (etext (p_emitted s) ++ ptext (p_pending s))
+  /\ (p_last_tw s <= p_cur_w s)%N
+  /\ Forall (fun kv => ptext (snd kv) = fst kv) (p_cache s)
+  /\ p_panicked s = false.
+Proof. exact plumbing_invariant_explicit. Qed.
+
+(* ... and when such a run has reached EndOfFile, parse_syntax_file's last step hands out the
+   rest: the terminals handed to the grammar spell the file. *)
+Theorem C10_file_lossless : forall (src : str) (ops : list op),
+  ops_ok src ops = true -> peek_kind (run_ops src ops) = TEndOfFile ->
+  etext (p_emitted (finish_file src (run_ops src ops))) = src.
+Proof. exact file_lossless. Qed.
+
+(* Without the side conditions the statement is false in the faithful model - this is known
+   finding F1 of the implementation ("#fn" comes out as "fn#"): skip_taken_node_with_offset is
+   called while a token skipped after the node sits in pending_trivia. *)
+Theorem C10_plumbing_unconditional_refuted :
+  exists (src : str) (ops : list op),
+    peek_kind (run_ops src ops) = TEndOfFile
+    /\ p_panicked (finish_file src (run_ops src ops)) = false
+    /\ etext (p_emitted (finish_file src (run_ops src ops))) <> src.
+Proof. exact plumbing_unconditional_refuted. Qed.
+
+(* non-vacuity of [ops_ok]: header comment split off by take_doc, a skipped token, a skipped
+   taken node, unglue of && *)
+Example C10_plumbing_example :
+  let src := str_of_string "// h
++ x && y" in
+  let ops := [OTakeDoc; OSkipToken 1; OTake; OSkipTakenNodes [(4, 1, 9, 2)]%N;
+              OUnglue TAndAnd TAnd TAnd [38%N] [38%N]; OTake; OTake; OSkipUntil 5 is_eof 3] in
+  ops_ok src ops = true /\ peek_kind (run_ops src ops) = TEndOfFile
+  /\ map (fun e => (e_kind e, e_text e)) (p_emitted (finish_file src (run_ops src ops)))
+     = [(TEmpty, []); (TAnd, [38%N]); (TAnd, [38%N]); (TEndOfFile, [])].
+Proof. vm_compute. repeat split. Qed.
 
 (* non-vacuity: a text with comments of the three kinds, a multi-character operator, an
    unterminated string and a non-ASCII character *)
@@ -80,3 +129,6 @@ Print Assumptions C10_lexer_lossless.
 Print Assumptions C10_lexer_widths.
 Print Assumptions C10_widths.
 Print Assumptions C10_spans.
+Print Assumptions C10_plumbing_invariant.
+Print Assumptions C10_file_lossless.
+Print Assumptions C10_plumbing_unconditional_refuted.
